@@ -1248,7 +1248,9 @@ impl Machine {
                 }
                 Instruction::JmpIfNeg(cond, offset) => {
                     let cond_v = self.get_stack(cond as i64);
-                    if Self::get_as::<f64>(cond_v) <= 0.0 {
+                    // A condition is true iff it is > 0.0 (as for `&&`/`||` and on the WASM backend):
+                    // NaN is false and takes the else branch.
+                    if !(Self::get_as::<f64>(cond_v) > 0.0) {
                         increment = offset;
                     }
                 }
